@@ -93,6 +93,33 @@ def make_numba_cache_process_safe():
 make_numba_cache_process_safe()
 
 
+TRANSIENT_RETRIES = {'count': 0}
+
+
+def call_repo(name, fn, **kw):
+    """`fn(**kw)` inside vlib.result.repo_call(name), with one special case: numba's parfor array analysis inserts
+    run-time shape assertions into the `parallel=True` functions (calculate_terms, the e/I tables); in *cold-cache
+    multi-process* runs (some functions compiled in this process, others loaded from the cache another shard just
+    wrote) such an assertion (`AssertionError: Sizes of heating_term_old, heating_term do not match`) fired sporadically
+    (4 of ~14 cold 16-shard runs, on inputs whose arrays all have the same length; never in a warm or single-process run,
+    never on replay of the same case).  It is a property of the numba runtime, not of the inputs, so the identical
+    call is repeated (at most twice); only a persistent exception is reported.  Retries are counted in the label
+    `numba_transient_retry`."""
+    from vlib.result import RepoRaised, repo_call
+    last = None
+    for attempt in range(3):
+        try:
+            with repo_call(name):
+                return fn(**kw)
+        except RepoRaised as e:
+            if isinstance(e.exc, AssertionError) and str(e.exc).startswith('Sizes of '):
+                TRANSIENT_RETRIES['count'] += 1
+                last = e
+                continue
+            raise
+    raise last
+
+
 def weighted(strategies, weights):
     """one_of with integer weights (st.one_of drops repeated strategy objects, so repeating does not weight)."""
     idx = [i for i, w in enumerate(weights) for _ in range(int(w))]
@@ -325,6 +352,7 @@ class Setup:
             b.fixed_dt = None if b.spec['dt_factor'] is None else \
                 (10.0 ** b.spec['dt_factor']) / (b.fixed_q * float(self.n[0]))
             b.host_mass = (self.bodies[1 - b.idx].mass if dual else self.host_mass)
+            b.table_on = dual and any(x.obl is not None for x in self.bodies)
 
     def arr(self, v, name, j=None):
         """Value to pass to the repository: array (array case, if this input varies) or python float."""
@@ -497,7 +525,8 @@ def mode_sum(su, body, trunc=None, with_love=True):
     skip_sync = body.sync or (su.as_array in (False, 'e', 'visc') and float(spin[0]) == float(n[0]))
     for l in range(2, su.l_max + 1):
         ecc = _ecc_table_func(l, trunc)(e)
-        inc = _inc_table_func(l, body.obl is not None)(obl)
+        # dual-body calls use the general inclination tables for BOTH bodies as soon as one of them has an obliquity
+        inc = _inc_table_func(l, body.obl is not None or getattr(body, 'table_on', False))(obl)
         dist = ra ** (2 * l - 4)
         for (m, p), F2 in inc.items():
             c = universal_coeff(l, m)
